@@ -52,6 +52,10 @@ pub fn gen_workload(sub: u64) -> Workload {
         for (i, t) in tops.iter().take(2).enumerate() {
             corpus.links.push((format!("ln{i}.txt"), t.clone()));
         }
+        if rng.chance(1, 2) {
+            // ... and one that points nowhere (an error under -L, in every run alike)
+            corpus.links.push(("ln-dangling.txt".into(), "no-such-target.txt".into()));
+        }
     }
     let explicit_only = rng.chance(1, 8);
     if explicit_only {
@@ -417,8 +421,27 @@ pub fn blocks_tolerating(mode: &str, out: &[u8], failed: Option<&str>) -> Result
     }
 }
 
+/// Diagnostics as a multiset of lines. The two walkers word the same failure differently (the
+/// single-threaded one goes through the walkdir crate: "IO error for operation on PATH: ..."):
+/// what is compared is which path failed with which OS error, not the wording.
 fn sorted_lines(b: &[u8]) -> Vec<Vec<u8>> {
-    let mut v: Vec<Vec<u8>> = lines(b).into_iter().map(|l| l.to_vec()).collect();
+    let mut v: Vec<Vec<u8>> = lines(b)
+        .into_iter()
+        .map(|l| {
+            let s = String::from_utf8_lossy(l).into_owned();
+            match (s.find("IO error for operation on "), s.rfind(": ")) {
+                (Some(i), Some(_)) => {
+                    // "rg: P: IO error for operation on P: MSG" -> "rg: P: MSG"
+                    let rest = &s[i + "IO error for operation on ".len()..];
+                    match rest.find(": ") {
+                        Some(j) => format!("{}{}", &s[..i], &rest[j + 2..]).into_bytes(),
+                        None => s.into_bytes(),
+                    }
+                }
+                _ => s.into_bytes(),
+            }
+        })
+        .collect();
     v.sort();
     v
 }
@@ -487,6 +510,15 @@ pub fn run_workload(sub: u64, only_seed: Option<u64>, acc: &mut Acc, ctx: &Ctx, 
         (None, Some((p, j))) => vec![format!("read_err=/w/{p}:{j}:5"), "read_frag=3".into()],
         _ => vec!["noop=1".into()],
     };
+    if rng.chance(1, 8) && !w.explicit_only {
+        // a directory cannot be opened at all (unreadable, vanished): reported once, by every run alike
+        let mut dirs: Vec<String> = w.corpus.files.iter().filter_map(|(p, _)| p.rfind('/').map(|i| p[..i].to_string())).filter(|d| !d.starts_with("..")).collect();
+        dirs.sort();
+        dirs.dedup();
+        if !dirs.is_empty() {
+            plan.push(format!("opendir_err=/w/{}:13", dirs[rng.below(dirs.len())]));
+        }
+    }
     if rng.chance(1, 8) && !w.explicit_only {
         // a directory cannot be listed to the end (in the reference run and in every scheduled run)
         let mut dirs: Vec<String> = w.corpus.files.iter().filter_map(|(p, _)| p.rfind('/').map(|i| p[..i].to_string())).filter(|d| !d.starts_with("..")).collect();
